@@ -207,7 +207,135 @@ reg.add(Proc(
         ('dependents-of-others-untouched', z3.ForAll([z3.Const('p_x', Obj), z3.Const('p_y', Obj)], z3.Implies(
             z3.Const('p_y', Obj) != c.a.self,
             depmap(c, z3.Const('p_x', Obj))[z3.Const('p_y', Obj)] == depmap(c, z3.Const('p_x', Obj), False)[z3.Const('p_y', Obj)]))),
-        ('self-notified-last', c.h('$log') == Concat(c.h0('$log'), Unit(c.a.self))),
+        ('self-notified-last', c.h('$log') == Concat(c.h0('$log'), Concat(Unit(c.a.self), T(L(c.h0('$log')))))),
         ('well-formed', z3.And(all_wf(c), distinct_maps(c)))],
     loops={'L0': Loop(_sb_L0), 'L1': Loop(_sb_L1)},
+))
+
+# ------------------------------------------------------------------ Specification.changed
+SS = z3.ArraySort(Obj, SeqO)
+calc = z3.Function('calc_sro', Obj, SeqO, SS, SeqO)        # what _calculate_sro computes from the bases' current __sro__ (C03)
+is_iface = z3.Function('is_InterfaceClass', Obj, B)
+filt = z3.Function('ifaces_of_prefix', SeqO, Int, SeqO)     # interfaces among the first k elements, in order
+rank = z3.Function('rank', Obj, Int)                        # ghost: acyclicity (A3) -- dependents have a larger rank
+T = z3.Function('notification_tail', Int, SeqO)             # what a notified dependent appends to the log after itself
+reg.axiom('filt-0', z3.ForAll([_s], filt(_s, 0) == Empty(SeqO), patterns=[filt(_s, 0)]))
+reg.axiom('filt-step', z3.ForAll([_s, _k], z3.Implies(z3.And(0 <= _k, _k < L(_s)), filt(_s, _k + 1) == z3.If(
+    is_iface(_s[_k]), Concat(filt(_s, _k), Unit(_s[_k])), filt(_s, _k))), patterns=[filt(_s, _k + 1)]))
+reg.assumptions.append('A3: the dependents relation is acyclic (ghost rank); dependents that are not specifications (lookup objects) '
+                       'honour the contract of changed()')
+
+
+def _isinstance_iface(ex, node, st):
+    out = []
+    for s, v in ex.ev(node.args[0], st):
+        out.append((s, vbool(is_iface(v.t))))
+    return out
+
+
+def own_state_ok(c, X, now=True):
+    h = c.h if now else c.h0
+    x = z3.Const('os_x', Obj)
+    imp = h('_implied')[X]
+    return z3.And(imp != NONE, h('$alloc')[imp],
+                  z3.ForAll([x], z3.And(h('_dependents')[x] != imp, z3.Implies(x != X, h('_implied')[x] != imp))))
+
+
+def ranks_ok(c, now=True):
+    x, y = z3.Consts('rk_x rk_y', Obj)
+    return z3.ForAll([x, y], z3.Implies(depmap(c, x, now)[y] != ABSENT, rank(y) > rank(x)))
+
+
+def low_rank_untouched(c, r):
+    """fields of every object of rank < r (and every implied mapping of such an object) are as at entry"""
+    x = z3.Const('lr_x', Obj)
+    return z3.ForAll([x], z3.Implies(rank(x) < r, z3.And(
+        c.h('__sro__')[x] == c.h0('__sro__')[x], c.h('__iro__')[x] == c.h0('__iro__')[x],
+        c.h('_v_attrs')[x] == c.h0('_v_attrs')[x], c.h('_implied')[x] == c.h0('_implied')[x],
+        c.h('$dict')[c.h0('_implied')[x]] == c.h0('$dict')[c.h0('_implied')[x]])))
+
+
+def vchanged_ensures(c):
+    n0 = L(c.h0('$log'))
+    return changed_frame(c)[:2] + [
+        all_wf(c), distinct_maps(c),
+        c.h('$log') == Concat(c.h0('$log'), Concat(Unit(c.a.self), T(n0))),
+        low_rank_untouched(c, rank(c.a.self)),
+        z3.ForAll([z3.Const('ve_x', Obj)], own_state_ok(c, z3.Const('ve_x', Obj)) == own_state_ok(c, z3.Const('ve_x', Obj), False)) if False else z3.BoolVal(True),
+    ]
+
+
+_vch = reg.procs[I + 'virtual.changed']
+_vch.ensures = vchanged_ensures
+_vch.modifies = ['__sro__', '__iro__', '$dict', '_v_attrs', '$alloc', '$log']
+
+reg.add(Proc(I + 'Specification._calculate_sro', [('self', OBJ)], result=SEQO, trusted=True,
+             ensures=lambda c: [c.res == calc(c.a.self, c.h('_bases')[c.a.self], c.h('__sro__'))],
+             note='C3 order of the bases\' current __sro__ with Interface moved last: the function verified for C03 (ro.py) plus a '
+                  'dict comprehension outside the subset; bounded against CPython\'s MRO by the C03 check'))
+
+
+def _ch_entry(ex, st):
+    st.heap.set('$log', Concat(st.heap.get('$log'), Unit(ex.args['self'].t)))
+
+
+def implied_is(c, X, seq, upto=None):
+    x = z3.Const('im_x', Obj)
+    j = z3.Int('im_j')
+    m = c.h('$dict')[c.h('_implied')[X]]
+    n = L(seq) if upto is None else upto
+    return z3.ForAll([x], (m[x] != ABSENT) == z3.Exists([j], z3.And(0 <= j, j < n, seq[j] == x)))
+
+
+def _ch_K0(c):
+    return [('interfaces-of-the-prefix', c.acc == filt(c.l.ancestors, c.i))]
+
+
+def _ch_L0(c):
+    return [('implied-is-the-prefix', implied_is(c, c.a.self, c.l.ancestors, c.i)),
+            ('only-own-implied-mapping-changes', z3.ForAll([z3.Const('l0_o', Obj)], z3.Implies(
+                z3.Const('l0_o', Obj) != c.h('_implied')[c.a.self], c.h('$dict')[z3.Const('l0_o', Obj)] == c.hL('$dict')[z3.Const('l0_o', Obj)])))]
+
+
+def _ch_L1(c):
+    j = z3.Int('l1_j')
+    keys = dict_keys(depmap(c, c.a.self, False))
+    s = c.a.self
+    return [('dependents-so-far-notified', z3.ForAll([j], z3.Implies(z3.And(0 <= j, j < c.i), Contains(c.h('$log'), keys[j])))),
+            ('bookkeeping-untouched', z3.And(*changed_frame(c)[:2])), ('well-formed', z3.And(all_wf(c), distinct_maps(c))),
+            ('own-results-intact', z3.And(c.h('__sro__')[s] == c.hL('__sro__')[s], c.h('__iro__')[s] == c.hL('__iro__')[s],
+                                          c.h('_implied')[s] == c.hL('_implied')[s],
+                                          c.h('$dict')[c.h('_implied')[s]] == c.hL('$dict')[c.hL('_implied')[s]],
+                                          c.h('_v_attrs')[s] == c.hL('_v_attrs')[s])),
+            ('lower-ranks-untouched', low_rank_untouched(c, rank(s)))]
+
+
+def changed_post(c):
+    s = c.a.self
+    sro = calc(s, c.h0('_bases')[s], c.h0('__sro__'))
+    j = z3.Int('cp_j')
+    keys = dict_keys(depmap(c, s, False))
+    return [
+        ('sro-recomputed-from-current-bases', c.h('__sro__')[s] == sro),
+        ('iro-is-sro-restricted-to-interfaces', c.h('__iro__')[s] == filt(sro, L(sro))),
+        ('implied-is-exactly-the-sro', implied_is(c, s, sro)),
+        ('memo-dropped', c.h('_v_attrs')[s] == NONE),
+        ('every-dependent-notified', z3.ForAll([j], z3.Implies(z3.And(0 <= j, j < L(keys)), Contains(c.h('$log'), keys[j])))),
+        ('bookkeeping-untouched', z3.And(*changed_frame(c)[:2])),
+        ('lower-ranks-untouched', low_rank_untouched(c, rank(s))),
+    ]
+
+
+reg.add(Proc(
+    I + 'Specification.changed', [('self', OBJ), ('originally_changed', OBJ)], source='interface.py:Specification.changed',
+    calls={'self._calculate_sro': I + 'Specification._calculate_sro', 'dependent.changed': I + 'virtual.changed',
+           'isinstance': _isinstance_iface},
+    locals={'$elt_K0': OBJ},
+    on_entry=_ch_entry,
+    ghost_pre=lambda c: dict_keys_facts(depmap(c, c.a.self)),      # a dict has finitely many keys, listed once each
+    modifies=['__sro__', '__iro__', '$dict', '_v_attrs', '$alloc', '$log'],
+    requires=lambda c: [('all-well-formed', all_wf(c)), ('maps-distinct', distinct_maps(c)),
+                        ('own-implied-mapping', own_state_ok(c, c.a.self)), ('acyclic', ranks_ok(c))],
+    ensures=changed_post,
+    loops={'K0': Loop(_ch_K0), 'L0': Loop(_ch_L0), 'L1': Loop(_ch_L1)},
 ))
